@@ -438,6 +438,12 @@ func runDetSched(o *Out, _ *rand.Rand, thorough bool) {
 			c = genCase(rng, fullProfile(12+rng.Intn(8), 2+rng.Intn(2)))
 			c.Solve = &CSolve{Runs: 1, Starts: rng.Intn(2), Det: true, Iters: 600 + rng.Intn(600), Slice: []int{10, 25, 60}[rng.Intn(3)]}
 		}
+		if ci%4 == 2 {
+			// several runs, more start solutions than runs, equal slices: the cycles that only consume start solutions are
+			// followed by cycles that start from the shared best — the per-cycle barrier must hold throughout
+			runs := 2 + rng.Intn(2)
+			c.Solve = &CSolve{Runs: runs, Starts: 2*runs + rng.Intn(2), Det: true, Iters: 40 * runs * (4 + rng.Intn(3)), Slice: 40}
+		}
 		if replayFile != "" {
 			c = loadReplayCase(replayFile)
 			ncases = 1
@@ -462,10 +468,28 @@ func runDetSched(o *Out, _ *rand.Rand, thorough bool) {
 			var mu sync.Mutex
 			copied := map[int]float64{}    // run → score it started from (copy of the shared best)
 			reported := map[int]float64{}  // run → best score it reported
+			// … and for any number of runs in deterministic mode: the cycles do not overlap — when a run of cycle k starts,
+			// every run of an earlier cycle has ended (the dispatcher's barrier)
+			doneRuns := map[int]bool{}
+			barrier := ""
+			nruns := c.Solve.Runs
 			nextroute.VerifHook = func(site string, args ...any) {
 				if site == "worker_copied" {
 					mu.Lock()
-					copied[args[0].(int)] = args[1].(float64)
+					r := args[0].(int)
+					copied[r] = args[1].(float64)
+					if nruns >= 1 && barrier == "" {
+						for r2 := range copied {
+							if (r2-1)/nruns < (r-1)/nruns && !doneRuns[r2] {
+								barrier = fmt.Sprintf("run %d (cycle %d) started while run %d (cycle %d) was still going", r, (r-1)/nruns+1, r2, (r2-1)/nruns+1)
+							}
+						}
+					}
+					mu.Unlock()
+				}
+				if site == "worker_done" {
+					mu.Lock()
+					doneRuns[args[0].(int)] = true
 					mu.Unlock()
 				}
 				sh(site, args...)
@@ -490,6 +514,11 @@ func runDetSched(o *Out, _ *rand.Rand, thorough bool) {
 			if span != nil || serr != nil {
 				continue
 			}
+			if barrier != "" {
+				o.Violate(Violation{Property: "C13", Clause: "cycles-overlap-in-deterministic-mode", Sig: fmt.Sprintf("C13|cycles-overlap-in-deterministic-mode|runs=%d|%s", c.Solve.Runs, sch.name),
+					Detail: barrier, Replay: c})
+			}
+			o.Count("barrier-invariant-checked")
 			if c.Solve.Runs == 1 {
 				best := copied[1]
 				for r := 1; ; r++ {
@@ -553,6 +582,13 @@ func runRepro(o *Out, _ *rand.Rand, thorough bool) {
 			p = Profile{MaxStops: 16 + rng.Intn(10), MaxVehicles: 2 + rng.Intn(2), Precedence: true, ForceUnordered: true, Capacity: rng.Intn(2) == 0, StatedTwice: true}
 			div = 100
 		}
+		if ci%4 == 1 {
+			// several capacity resources with quantities of both signs on a fleet of small and large vehicles, many ties: the
+			// per-resource constraints are built by ranging over a map — any difference in what they answer (a hint, an
+			// early exit) must not reach the random stream
+			p = Profile{MaxStops: 10 + rng.Intn(8), MaxVehicles: 3, MultiRes: true, Capacity: true}
+			div = 100
+		}
 		c := genCase(rng, p)
 		// ties: collapse the matrices to few distinct values
 		for _, m := range [][][]int{c.Dur, c.Dist} {
@@ -583,13 +619,20 @@ func runRepro(o *Out, _ *rand.Rand, thorough bool) {
 		results := map[string]int{}
 		var first string
 		var perRep, sigs []string
-		for rep := 0; rep < reps; rep++ {
+		nreps := reps
+		if p.MultiRes {
+			nreps = reps * 4 // map order varies from build to build: more builds of the same input
+		}
+		for rep := 0; rep < nreps; rep++ {
 			// a fresh model per repetition: "the same model" means the same input and options
 			bt, err, pan := buildCase(c)
 			if pan != nil || err != nil {
 				o.Count("repro-build-failed:" + fmt.Sprint(pan != nil))
 				if err != nil {
 					o.Count("repro-build-error:" + errKind(err))
+					if len(o.Meta.Notes) < 5 {
+						o.Meta.Notes = append(o.Meta.Notes, "repro build error: "+err.Error())
+					}
 				}
 				break
 			}
